@@ -8,6 +8,7 @@ CFG = dict(
     ],
     assumptions=[
         "queued packets are `queueable`: not themselves containers (FlagMulti/FlagMultiDevice) or oneshot, job number assigned (verifyPacket's random job for Job 0 is not modelled), non-zero tags, fragments carry a count (or are SvDrop/SvRegister notices)",
+        "a queued packet flagged as key material (FlagCrypt) has an empty payload: the peer's key machinery (Listener.notify -> keyCryptAndUpdate) consumes the payload of such a packet, which is C06's subject; its position, order and the rule that next() sends a picked one alone are modelled and generated",
         "Size() <= limits.Frag is NOT assumed (an oversized packet is sent alone; the budget theorem speaks about containers with more than one packet)",
         "every foreign device in the queue has a registered session on the receiving listener (otherwise the peer asks it to re-register and drops the packet: C15/C05 territory)",
         "the session is not in channel mode; no packet is queued concurrently with next() (the queue is a snapshot: `histories` = successive transmissions of that snapshot); the random re-key packet of pick() is outside the model",
